@@ -13,13 +13,38 @@ REPO = os.environ.get('VERIF_REPO') or os.environ.get('VP_RUN_REPO') or '/repo'
 LEAN = f'{VERIF}/lean'
 HARNESS = f'{VERIF}/harness'
 WORK = f'{VERIF}/work'
-# build output is kept per repository copy (cargo does not re-uplift artifacts when two copies alternate in one target dir)
-TSUF = '' if REPO == '/repo' else '-' + re.sub(r'[^A-Za-z0-9]', '_', REPO)
+# Build output of the Rust side is keyed by the *content* of the repository's sources (and by the copy's path): cargo's
+# freshness check compares mtimes, so restoring an older file after a change (mtime-preserving copy) would keep the build
+# of the changed tree; and two copies alternating in one target dir keep stale uplifted artifacts.
+def _src_hash():
+    import hashlib
+    h = hashlib.sha1()
+    root = f'{REPO}/derive-ex'
+    for dp, dn, fn in os.walk(root):
+        dn[:] = sorted(d for d in dn if d != 'target')
+        for f in sorted(fn):
+            if f.endswith(('.rs', '.toml', '.lock')):
+                p = os.path.join(dp, f)
+                h.update(os.path.relpath(p, root).encode())
+                try:
+                    h.update(open(p, 'rb').read())
+                except OSError:
+                    pass
+    for f in ('Cargo.toml', 'Cargo.lock'):
+        try:
+            h.update(open(f'{REPO}/{f}', 'rb').read())
+        except OSError:
+            pass
+    return h.hexdigest()[:12]
+
+
+TSUF = ('' if REPO == '/repo' else '-' + re.sub(r'[^A-Za-z0-9]', '_', REPO)) + '-' + _src_hash()
+TDIR = f'{WORK}/target{TSUF}'
 DRV = f'{LEAN}/.lake/build/bin/drv'
-XCHECK = f'{WORK}/target{TSUF}/debug/xcheck'
+XCHECK = f'{TDIR}/debug/xcheck'
 NPROC = min(16, os.cpu_count() or 4)
 ALLOWED_AXIOMS = {'propext', 'Classical.choice', 'Quot.sound'}
-ENV = dict(os.environ, CARGO_NET_OFFLINE='true', CARGO_TARGET_DIR=f'{WORK}/target{TSUF}')
+ENV = dict(os.environ, CARGO_NET_OFFLINE='true', CARGO_TARGET_DIR=TDIR)
 
 
 def sh(cmd, cwd=None, timeout=None, check=False, env=None):
@@ -47,6 +72,7 @@ class Build:
         return self.lean_ok
 
     def harness(self):
+        _prune_targets()
         hdir = HARNESS
         if REPO != '/repo':
             # the harness names the repository by path: build a copy that names this one
@@ -59,6 +85,20 @@ class Build:
         self.harness_ok = r.returncode == 0
         self.harness_log = (r.stdout + r.stderr)[-6000:]
         return self.harness_ok
+
+
+def _prune_targets(keep=3):
+    """remove all but the most recently used build directories (one per source state)"""
+    import glob
+    import shutil
+    for pat in ('target-*', 'pm-target-*'):
+        ds = sorted(glob.glob(f'{WORK}/{pat}'), key=lambda d: os.path.getmtime(d), reverse=True)
+        cur = TDIR if pat == 'target-*' else f'{WORK}/pm-target{TSUF}'
+        for d in [d for d in ds if d != cur][keep:]:
+            shutil.rmtree(d, ignore_errors=True)
+    for d in (TDIR, f'{WORK}/pm-target{TSUF}'):
+        if os.path.isdir(d):
+            os.utime(d, None)
 
 
 def regenerate_tables():
